@@ -22,6 +22,7 @@ double ulpFloat(double v) {
 }  // namespace
 
 bool prop(Tape &t, Report &R) {
+  HistoryScope hist(t, R);
   GenOpts o;
   o.globalDomain = true;
   o.maxCells = R.thorough() ? 40 : 16;
